@@ -275,7 +275,12 @@ def gen_graph(rng, size, allow_bkm_svc=True):
             if svcs and rng.random() < 0.3:
                 rk.append(rng.choice(svcs))
             calls = [(b, len(B[b]['params'])) for b in rk if B[b]['kind'] == 'bkm'] + [(s, len(svc_params(B, B[s]))) for s in rk if B[s]['kind'] == 'svc']
-            logic = gen_logic(rng, ri + rd, calls, [b for b in rk if B[b]['kind'] == 'bkm'], B)
+            names = ri + rd
+            if rng.random() < 0.25:
+                # the logic also mentions a name it does not require (an input, a decision, a fresh name): it must see null whatever the caller supplies
+                foreign = [x for x in inputs + decs if x not in names] + [3001, 3002]
+                names = names + [rng.choice(foreign)]
+            logic = gen_logic(rng, names, calls, [b for b in rk if B[b]['kind'] == 'bkm'], B)
             new('dec', logic=logic, rk=rk, rd=rd, ri=ri, callable=kclosure(B, rk))
     return G
 
